@@ -57,6 +57,9 @@ func (e *Enc) call(fr *Frame, st *State, c *ssa.CallCommon, in ssa.Instruction, 
 }
 
 func (e *Enc) callWithArgs(fr *Frame, st *State, c *ssa.CallCommon, in ssa.Instruction, pos token.Pos, fnVal Val, args []Val) []Val {
+	prevCall := e.curCall
+	e.curCall = c
+	defer func() { e.curCall = prevCall }()
 	sig := c.Signature()
 	if c.IsInvoke() {
 		// interface method call
@@ -336,6 +339,39 @@ func (e *Enc) applyContract(fr *Frame, st *State, fc *FuncContract, sig *types.S
 		}
 	}
 	for _, m := range fc.Modifies {
+		if call, ok := m.(*SCall); ok {
+			if id, ok := call.Fun.(*SIdent); ok && id.Name == "pointees" && len(call.Args) == 1 {
+				// pointees(param): whatever the pointers packed into the variadic argument point to,
+				// havocked by type (every location of the pointee types' heaps)
+				done := false
+				if pid, ok := call.Args[0].(*SIdent); ok {
+					if tys := pointeeTypes(e.curCall, sig, pid.Name); tys != nil {
+						ms := &modSet{cells: map[*ssa.Alloc]bool{}, heaps: map[string]bool{}, iters: map[ssa.Value]bool{}}
+						for _, ty := range tys {
+							e.addLeafHeaps(ms, ty)
+						}
+						var hn []string
+						for n := range ms.heaps {
+							hn = append(hn, n)
+						}
+						sort.Strings(hn)
+						for _, n := range hn {
+							if old := e.heapAny(st, n); old.T != "" {
+								st.heaps[n] = e.fresh(n+"_pt", old.S)
+							} else {
+								e.epochCounter++
+								st.epochs = append(st.epochs, &lazyEpoch{id: e.epochCounter, names: map[string]bool{n: true}})
+							}
+						}
+						done = true
+					}
+				}
+				if !done {
+					e.havocAll(st)
+				}
+				continue
+			}
+		}
 		t, err := ec.inState(pre).evalModTarget(m)
 		if err != nil {
 			e.failed = fmt.Errorf("%s:%d: %v", fc.File, fc.Line, err)
@@ -381,24 +417,50 @@ func (e *Enc) applyContract(fr *Frame, st *State, fc *FuncContract, sig *types.S
 // havocAll havocs every heap; what the enclosing function's `preserves` clause names
 // (state unreachable from callees with an unbounded frame) keeps its contents.
 func (e *Enc) havocAll(st *State) {
-	// preserved ghost variables must exist before the havoc to be related across it
-	for _, pt := range e.preserved {
-		if pt.kind == "ghostvar" {
+	targets := e.preservedTargets(st)
+	// preserved ghost state must exist before the havoc to be related across it
+	for _, pt := range targets {
+		switch pt.kind {
+		case "ghostvar":
 			if gv := e.P.CS.GhostVars[pt.name]; gv != nil && e.heapAny(st, "GV_"+pt.name).T == "" {
 				if _, s, err := (&EvalCtx{e: e, spec: gv.Spec}).resolveType(gv.Type); err == nil {
 					e.heap(st, "GV_"+pt.name, s)
+				}
+			}
+		case "ghostfield":
+			if gf := e.P.CS.GhostFields[pt.name]; gf != nil && e.heapAny(st, "G_"+pt.name).T == "" {
+				if _, s, err := (&EvalCtx{e: e, spec: gf.Spec}).resolveType(gf.Sort); err == nil {
+					e.heap(st, "G_"+pt.name, ArraySort(SLoc, s))
 				}
 			}
 		}
 	}
 	pre := st.clone()
 	e.havocAllRaw(st)
-	e.applyPreserved(pre, st, nil)
+	e.applyPreservedTargets(targets, pre, st, nil)
+}
+
+// preservedTargets: the preserves clauses evaluated in st (those naming locals only once the local exists).
+func (e *Enc) preservedTargets(st *State) []modTarget {
+	targets := e.preserved
+	for _, dp := range e.deferredPres {
+		ec := &EvalCtx{e: e, st: st, old: dp.fr.oldSt, bind: dp.bind, spec: dp.spec, fr: dp.fr}
+		t, err := ec.evalModTarget(dp.expr)
+		if err != nil || (t.kind != "loc" && t.kind != "elems" && t.kind != "map" && t.kind != "ghostfield") {
+			continue // the local does not exist yet
+		}
+		targets = append(targets[:len(targets):len(targets)], t)
+	}
+	return targets
+}
+
+func (e *Enc) applyPreserved(pre, st *State, written map[string]bool) {
+	e.applyPreservedTargets(e.preservedTargets(pre), pre, st, written)
 }
 
 // applyPreserved states that the preserved targets have the same contents in st as in pre,
 // except in the heaps named by written (heaps something else than an unbounded-frame call writes).
-func (e *Enc) applyPreserved(pre, st *State, written map[string]bool) {
+func (e *Enc) applyPreservedTargets(targets []modTarget, pre, st *State, written map[string]bool) {
 	heapBefore := func(n string) (Val, bool) {
 		if h, ok := pre.heaps[n]; ok {
 			return h, true
@@ -406,16 +468,16 @@ func (e *Enc) applyPreserved(pre, st *State, written map[string]bool) {
 		h, ok := e.base[n]
 		return h, ok
 	}
-	targets := e.preserved
-	for _, dp := range e.deferredPres {
-		ec := &EvalCtx{e: e, st: pre, old: dp.fr.oldSt, bind: dp.bind, spec: dp.spec, fr: dp.fr}
-		t, err := ec.evalModTarget(dp.expr)
-		if err != nil || (t.kind != "loc" && t.kind != "elems" && t.kind != "map") {
-			continue // the local does not exist yet
-		}
-		targets = append(targets[:len(targets):len(targets)], t)
-	}
 	for _, pt := range targets {
+		if pt.kind == "ghostfield" {
+			n := "G_" + pt.name
+			if nh, ok := st.heaps[n]; ok && !written[n] {
+				if oh, ok := heapBefore(n); ok && oh.T != nh.T {
+					e.fact(Eq(Select(nh, pt.loc), Select(oh, pt.loc)))
+				}
+			}
+			continue
+		}
 		if pt.kind == "ghostvar" {
 			n := "GV_" + pt.name
 			if nh, ok := st.heaps[n]; ok && !written[n] {
